@@ -30,7 +30,7 @@ def tasks(tier):
 
 
 def replay(result, workdir, seed):
-    return False, 'native replay for the optimizer family not built yet'
+    return optimizer_replay('C19', result, workdir, seed)
 
 
 def replay_file(path):
